@@ -99,6 +99,11 @@ func (tr *FnTr) staticCall(x ssa.Value, f *ssa.Function, cc *ssa.CallCommon, fre
 			return v
 		}
 	}
+	if name == "encoding/binary.Read" {
+		if v, ok := tr.binaryRead(x, cc); ok {
+			return v
+		}
+	}
 	if m := libModels[name]; m != nil {
 		return m(tr, x, args, cc)
 	}
@@ -275,6 +280,27 @@ func (tr *FnTr) contractCallInfo(x ssa.Value, f *calleeInfo, ct *FuncContract, a
 			curEpoch++
 			}
 			post.Mem = tr.havocMem(pre.Mem, pre.Alloc, frame, allocs, "call_"+f.name)
+		}
+	}
+	// ghost byte buffers reachable through the arguments (writers, hashers, *bytes.Buffer)
+	// may have been appended to: their content is havocked, their kind is kept
+	if !ct.Pure {
+		for _, a := range args {
+			if a.T == nil || len(a.L) == 0 {
+				continue
+			}
+			isRef := false
+			switch a.T.Underlying().(type) {
+			case *types.Interface, *types.Pointer:
+				isRef = true
+			}
+			if !isRef {
+				continue
+			}
+			id := a.L[0]
+			na := tr.vc.Fresh("g_call", SArr)
+			tr.vc.Assume(Le(Int(0), Select(na, Int(-1))))
+			post.Ghost = tr.vc.Def("ghost", Store(post.Ghost, id, na))
 		}
 	}
 	// results
@@ -737,6 +763,9 @@ func invokeModelled(cc *ssa.CallCommon) bool {
 
 func (tr *FnTr) invoke(x *ssa.Call, cc *ssa.CallCommon) Val {
 	if v, ok := tr.ghostInvoke(x, cc); ok {
+		return v
+	}
+	if v, ok := tr.readerInvoke(x, cc); ok {
 		return v
 	}
 	name := cc.Method.Name()
